@@ -138,6 +138,11 @@ class ListV:
         return t
 
     def elem(self, idx=None):
+        if isinstance(idx, str):
+            if idx in self.over:
+                return self.over[idx]
+            if self.default is not None:
+                return self.default
         if isinstance(idx, int):
             if idx in self.over:
                 return self.over[idx]
@@ -197,6 +202,9 @@ class Evaluator:
         self.returns: List[Tuple[ast.AST, object, Optional[int]]] = []
         self.problems: List[Tuple[ast.AST, str]] = []
         self.n_override = None  # N fixed by an enclosing `len(shape) == k` test
+        self.splits = 0
+        self.loop_ctx: List[dict] = []  # innermost last: {"idx": name, "const": int | None, "pre": {list name: ListV}}
+        self.track_sign = False  # C04: sign(x) carries the symbol S (S*S == 1), abs(x) == x * S
 
     # -- expressions -----------------------------------------------------------------
     def ev(self, e, env):
@@ -239,6 +247,18 @@ class Evaluator:
                         return ListV(b.length, b.elem(), {})
                     return ListV((b.length[0] - drop, b.length[1]), b.default if b.default is not None else b.elem(), over)
                 idx = s.value if isinstance(s, ast.Constant) and isinstance(s.value, int) else None
+                if isinstance(s, ast.Name):
+                    lc = self._loop_for(s.id)
+                    if lc is not None:
+                        if lc["const"] is not None:
+                            idx = lc["const"]
+                        else:
+                            # a position the loop has not visited yet: the value before the loop
+                            pre = lc["pre"].get(e.value.id) if isinstance(e.value, ast.Name) else None
+                            src_l = pre if isinstance(pre, ListV) else b
+                            return Deg(src_l.default if src_l.default is not None else src_l.elem())
+                    else:
+                        idx = "@" + s.id
                 return Deg(b.elem(idx))
             if isinstance(b, tuple) and b[0] == "tuple":
                 s = e.slice
@@ -399,9 +419,67 @@ class Evaluator:
             for i, x in enumerate(t.elts):
                 self.bind_target(x, parts[i] if parts is not None else Other(), env)
 
+    def _loop_for(self, name):
+        for lc in reversed(self.loop_ctx):
+            if lc["idx"] == name:
+                return lc
+        return None
+
+    def store_elem(self, lname, slice_node, val, env):
+        """`L[i] = val` for a tracked list L"""
+        l = env[lname]
+        d = degree_of(val)
+        key = None
+        if isinstance(slice_node, ast.Constant) and isinstance(slice_node.value, int) and slice_node.value >= 0:
+            key = slice_node.value
+        elif isinstance(slice_node, ast.Name):
+            lc = self._loop_for(slice_node.id)
+            if lc is None:
+                key = "@" + slice_node.id
+            elif lc["const"] is not None:
+                key = lc["const"]
+            else:
+                # generic iteration of a loop over the positions: every position not singled out gets d
+                if any(isinstance(k, str) for k in l.over) and not lc.get("skips"):
+                    env[lname] = ListV(("?", 0), unify(l.elem(), d, "stored element"), {})
+                    return
+                env[lname] = ListV(l.length, d, l.over, l.extra)
+                return
+        if key is None or l.length[0] == "?" or l.extra:
+            env[lname] = ListV(l.length, unify(l.elem(), d, "stored element") if (l.default is not None or l.over) else d, {})
+            return
+        if isinstance(key, str) and any(isinstance(k, str) and k != key for k in l.over):
+            env[lname] = ListV(("?", 0), unify(l.elem(), d, "stored element"), {})
+            return
+        over = dict(l.over)
+        over[key] = d
+        env[lname] = ListV(l.length, l.default, over, l.extra)
+
     # -- calls -------------------------------------------------------------------------
     def call(self, c: ast.Call, env):
         name = call_name(c) or ""
+        if name == "pop" and isinstance(c.func, ast.Attribute) and isinstance(c.func.value, ast.Name) and isinstance(env.get(c.func.value.id), ListV):
+            l = env[c.func.value.id]
+            a0 = c.args[0] if c.args else None
+            key = a0.value if isinstance(a0, ast.Constant) and isinstance(a0.value, int) else ("@" + a0.id if isinstance(a0, ast.Name) and self._loop_for(a0.id) is None else None)
+            if l.length[0] == "?" or l.extra or (key is None and l.over) or (isinstance(key, int) and key != 0 and l.over):
+                env[c.func.value.id] = ListV(("?", 0), l.elem(), {})
+                return Deg(l.elem())
+            got = l.elem(key)
+            over = {k: v for k, v in l.over.items() if k != key}
+            if isinstance(key, int):
+                over = {(k - 1 if isinstance(k, int) else k): v for k, v in over.items()}
+            env[c.func.value.id] = ListV((l.length[0] - 1, l.length[1]), l.default, over, [])
+            return Deg(got)
+        if name in ("CPTensor", "TuckerTensor", "Parafac2Tensor", "TTTensor", "TRTensor") and len(c.args) == 1:
+            return self.ev(c.args[0], env)
+        if name == "where" and len(c.args) == 3 and isinstance(c.args[0], ast.Compare) and len(c.args[0].ops) == 1 and isinstance(c.args[0].ops[0], ast.Eq) and isinstance(c.args[0].comparators[0], ast.Constant) and c.args[0].comparators[0].value == 0 and src(c.args[0].left) == src(c.args[2]):
+            # where(x == 0, <replacement>, x): x outside a set of measure zero
+            return Deg(degree_of(self.ev(c.args[2], env)))
+        if self.track_sign and name == "sign":
+            return Deg({"S": ONE})
+        if self.track_sign and name == "abs" and c.args:
+            return Deg(vadd(degree_of(self.ev(c.args[0], env)), {"S": ONE}))
         args = [self.ev(a, env) for a in c.args if not isinstance(a, ast.Starred)]
         kws = {k.arg: self.ev(k.value, env) for k in c.keywords if k.arg}
         ct = self.repo.resolve_call(self.f, self.f.module, c)
@@ -531,6 +609,8 @@ class Evaluator:
         s = src(t)
         if s in self.config:
             return self.config[s]
+        if isinstance(t, ast.Constant) and isinstance(t.value, (bool, int)):
+            return bool(t.value)
         if isinstance(t, ast.UnaryOp) and isinstance(t.op, ast.Not):
             r = self.decide(t.operand, env)
             return None if r is None else (not r)
@@ -555,6 +635,8 @@ class Evaluator:
             v = env.get(t.id)
             if isinstance(v, Other) and v.is_none:
                 return False
+            if isinstance(v, Other) and isinstance(v.const, bool):
+                return v.const
         return None
 
     # -- statements ------------------------------------------------------------------------
@@ -584,8 +666,7 @@ class Evaluator:
                     val = ListV((0, 0), None, {})
                 for t in s.targets:
                     if isinstance(t, ast.Subscript) and isinstance(t.value, ast.Name) and isinstance(env.get(t.value.id), ListV):
-                        l = env[t.value.id]
-                        env[t.value.id] = ListV(l.length, unify(l.elem(), degree_of(val), "stored element") if (l.default is not None or l.over) else degree_of(val), {})
+                        self.store_elem(t.value.id, t.slice, val, env)
                     else:
                         self.bind_target(t, val, env)
             elif isinstance(s, ast.AugAssign):
@@ -593,6 +674,10 @@ class Evaluator:
                     cur = env.get(s.target.id, Other())
                     fake = ast.BinOp(left=ast.Name(id=s.target.id, ctx=ast.Load()), op=s.op, right=s.value)
                     env[s.target.id] = self.ev(fake, env)
+                elif isinstance(s.target, ast.Subscript) and isinstance(s.target.value, ast.Name) and isinstance(env.get(s.target.value.id), ListV):
+                    load = ast.Subscript(value=ast.Name(id=s.target.value.id, ctx=ast.Load()), slice=s.target.slice, ctx=ast.Load())
+                    fake = ast.BinOp(left=load, op=s.op, right=s.value)
+                    self.store_elem(s.target.value.id, s.target.slice, self.ev(fake, env), env)
             elif isinstance(s, ast.Return):
                 v = self.ev(s.value, env) if s.value is not None else Other()
                 if isinstance(v, ListV):
@@ -624,12 +709,31 @@ class Evaluator:
                         env.clear(); env.update(e2)
                     elif l2:
                         env.clear(); env.update(e1)
+                    elif not self.loop_ctx and self.splits < 6 and self._lossy(e1, e2):
+                        # the two branches leave different lists / flags behind: follow each path
+                        # to the end of this block separately instead of merging
+                        self.splits += 1
+                        rest = stmts[stmts.index(s) + 1:]
+                        r1 = self.block(rest, e1)
+                        r2 = self.block(rest, e2)
+                        self.merge(env, e1, e2)
+                        return r1 and r2
                     else:
                         self.merge(env, e1, e2)
             elif isinstance(s, ast.For):
                 self.loop(s, env)
             elif isinstance(s, (ast.With, ast.Try)):
                 self.block(getattr(s, "body", []), env)
+        return False
+
+    @staticmethod
+    def _lossy(e1, e2):
+        for k in set(e1) & set(e2):
+            a, b = e1[k], e2[k]
+            if isinstance(a, ListV) and isinstance(b, ListV) and not (a.length == b.length and a.default == b.default and a.over == b.over and a.extra == b.extra):
+                return True
+            if isinstance(a, Other) and isinstance(b, Other) and isinstance(a.const, bool) and isinstance(b.const, bool) and a.const != b.const:
+                return True
         return False
 
     def merge(self, env, e1, e2):
@@ -648,29 +752,51 @@ class Evaluator:
             elif isinstance(a, Deg) or isinstance(b, Deg):
                 da, db = degree_of(a), degree_of(b)
                 env[k] = Deg(unify(da, db, f"`{k}` after a branch"))
+            elif isinstance(a, Other) and isinstance(b, Other) and (a.const != b.const or a.is_none != b.is_none):
+                env[k] = Other()
             else:
                 env[k] = a
 
     def loop(self, s: ast.For, env):
         it = s.iter
         enum = isinstance(it, ast.Call) and is_name(it.func, "enumerate") and it.args
-        lst = self.ev(it.args[0] if enum else it, env)
+        # `for i in range(len(L))` / `range(0, len(L))`: a loop over the positions of L
+        pos_of = None
+        if isinstance(it, ast.Call) and is_name(it.func, "range") and it.args and isinstance(s.target, ast.Name):
+            a = it.args[-1] if len(it.args) <= 2 else None
+            lo_ok = len(it.args) == 1 or (len(it.args) == 2 and isinstance(it.args[0], ast.Constant) and it.args[0].value == 0)
+            if lo_ok and isinstance(a, ast.Call) and is_name(a.func, "len") and a.args and isinstance(a.args[0], ast.Name) and isinstance(env.get(a.args[0].id), ListV):
+                pos_of = a.args[0].id
+        if pos_of is not None:
+            lst = env[pos_of]
+        else:
+            lst = self.ev(it.args[0] if enum else it, env)
         length = lst.length if isinstance(lst, ListV) else ("?", 0)
-        elem = Deg(lst.elem()) if isinstance(lst, ListV) else Other()
+        iter_name = pos_of or (it.args[0].id if enum and isinstance(it.args[0], ast.Name) else (it.id if isinstance(it, ast.Name) else None))
+        if pos_of is not None:
+            idx = s.target.id
+        else:
+            idx = s.target.elts[0].id if enum and isinstance(s.target, ast.Tuple) and isinstance(s.target.elts[0], ast.Name) else None
+        pre = {k: v for k, v in env.items() if isinstance(v, ListV)}
 
-        def body(e):
+        def body(e, elem, const=None, skips=False):
             e = dict(e)
-            if enum and isinstance(s.target, ast.Tuple) and len(s.target.elts) == 2:
+            if pos_of is not None:
+                self.bind_target(s.target, Other(), e)
+            elif enum and isinstance(s.target, ast.Tuple) and len(s.target.elts) == 2:
                 self.bind_target(s.target.elts[0], Other(), e)
                 self.bind_target(s.target.elts[1], elem, e)
             else:
                 self.bind_target(s.target, elem, e)
             saved = list(self.returns)
-            self.block(s.body, e)
+            self.loop_ctx.append({"idx": idx, "const": const, "pre": pre, "skips": skips})
+            try:
+                self.block(s.body, e)
+            finally:
+                self.loop_ctx.pop()
             self.returns = saved + [r for r in self.returns[len(saved):]]
             return e
 
-        idx = s.target.elts[0].id if enum and isinstance(s.target, ast.Tuple) and isinstance(s.target.elts[0], ast.Name) else None
         first, once = {}, {}
         if idx is not None:
             for n in ast.walk(s):
@@ -695,22 +821,58 @@ class Evaluator:
         saved_cfg = dict(self.config)
         e0 = dict(env)
         n_peeled = 0
-        if first and length[0] != "?":
-            for k, (v1, _) in first.items():
-                self.config[k] = v1
-            for k, (nm, eq) in once.items():
-                self.config[k] = not eq
-            e0 = body(e0)  # the first iteration
-            n_peeled = 1
-            for k, (_, v2) in first.items():
-                self.config[k] = v2
-        for k, (nm, eq) in once.items():
-            self.config[k] = not eq  # generic iteration: not the singled-out index
+        gen_elem = Other()
+        if isinstance(lst, ListV):
+            gen_elem = Deg(lst.default if lst.default is not None else lst.elem())
+        # positions evaluated one by one: those with an exactly known element, and the first one
+        # when the body tests for it
+        peel = []
+        if isinstance(lst, ListV) and length[0] != "?" and idx is not None or (isinstance(lst, ListV) and length[0] != "?" and first):
+            peel = sorted(k for k in lst.over if isinstance(k, int))
+            if first and 0 not in peel:
+                peel = [0] + peel
+            if peel != list(range(len(peel))) or lst.extra:
+                peel = [0] if first else []
+        elif first and length[0] != "?":
+            peel = [0]
+        for k in peel:
+            for t, (v1, v2) in first.items():
+                self.config[t] = v1 if k == 0 else v2
+            for t, (nm, eq) in once.items():
+                self.config[t] = not eq
+            el = Deg(lst.elem(k)) if isinstance(lst, ListV) and (k in lst.over or lst.default is not None) else gen_elem
+            e0 = body(e0, el, const=k)
+            n_peeled += 1
+        for t, (_, v2) in first.items():
+            self.config[t] = v2
+        for t, (nm, eq) in once.items():
+            self.config[t] = not eq  # generic iteration: not the singled-out index
         rest_len = (length[0] - n_peeled, length[1]) if length[0] != "?" else length
-        e1 = body(e0)
-        e2 = body(e1)
+        if isinstance(lst, ListV) and not peel and lst.over and any(isinstance(k, int) for k in lst.over):
+            gen_elem = Deg(lst.elem())
+        e1 = body(e0, gen_elem, skips=bool(once))
+        e2 = body(e1, gen_elem, skips=bool(once))
         self.config = saved_cfg
         once_given = [nm for nm, eq in once.values() if not (isinstance(env.get(nm), Other) and env[nm].is_none)]
+        n_iter = None
+        if rest_len[0] != "?":
+            n_iter = (rest_len[0] - (1 if (once_given and once) else 0), rest_len[1])
+
+        def accel(k, d0, v1, v2, what):
+            """degree after all the generic iterations, given the degree before and after one and two of them"""
+            if isinstance(v1, Top) or isinstance(v2, Top) or isinstance(d0, Top):
+                return v1 if isinstance(v1, Top) else (v2 if isinstance(v2, Top) else d0)
+            if d0 == ZERO or v1 == ZERO:
+                return v2 if v1 == v2 else Top(f"{what} changes degree irregularly in a loop")
+            inc1, inc2 = vadd(v1, d0, -1), vadd(v2, v1, -1)
+            if inc1 != inc2:
+                return Top(f"{what} changes degree irregularly in a loop")
+            if not inc1:
+                return v1
+            if n_iter is None:
+                return Top(f"{what} accumulates degree over a loop of unknown length")
+            return vadd(d0, vmulN(inc1, n_iter))
+
         for k in set(e1) | set(e0):
             a0, a1, a2 = e0.get(k), e1.get(k), e2.get(k)
             if isinstance(a1, Deg) and isinstance(a2, Deg):
@@ -718,39 +880,30 @@ class Evaluator:
                 if d0 is None:
                     env[k] = a1
                     continue
-                if isinstance(a1.v, Top) or isinstance(a2.v, Top) or isinstance(d0, Top):
-                    env[k] = a1 if isinstance(a1.v, Top) else a2
-                    continue
-                if d0 == ZERO or a1.v == ZERO:
-                    env[k] = a2 if a1.v == a2.v else Deg(Top(f"`{k}` changes degree irregularly in a loop"))
-                    continue
-                inc1, inc2 = vadd(a1.v, d0, -1), vadd(a2.v, a1.v, -1)
-                if inc1 == inc2:
-                    if not inc1:
-                        env[k] = a1
-                    elif rest_len[0] == "?":
-                        env[k] = Deg(Top(f"`{k}` accumulates degree over a loop of unknown length"))
-                    else:
-                        tot = vadd(d0, vmulN(inc1, rest_len))
-                        if once_given and once:
-                            tot = vadd(tot, inc1, -1)  # the singled-out iteration does not contribute
-                        env[k] = Deg(tot)
-                else:
-                    env[k] = Deg(Top(f"`{k}` changes degree irregularly in a loop"))
+                env[k] = Deg(accel(k, d0, a1.v, a2.v, f"`{k}`"))
             elif isinstance(a0, ListV) and isinstance(a1, ListV) and isinstance(a2, ListV) and a0.length[0] != "?" and a1.length[0] != "?" and a2.length[0] != "?":
-                # a list that grows by one element of constant degree per iteration
                 g1 = (a1.length[0] - a0.length[0], a1.length[1] - a0.length[1])
                 g2 = (a2.length[0] - a1.length[0], a2.length[1] - a1.length[1])
                 new1, new2 = a1.extra[len(a0.extra):], a2.extra[len(a1.extra):]
-                if g1 == g2 == (1, 0) and len(new1) == 1 and len(new2) == 1 and new1[0] == new2[0] and rest_len[0] != "?":
+                if g1 == g2 == (1, 0) and len(new1) == 1 and len(new2) == 1 and new1[0] == new2[0] and n_iter is not None:
+                    # a list that grows by one element of constant degree per iteration
                     d = new1[0]
-                    if (a0.default is None or a0.default == d):
-                        n_it = (rest_len[0] - (1 if (once_given and once) else 0), rest_len[1])
-                        env[k] = ListV((a0.length[0] + n_it[0], a0.length[1] + n_it[1]), d, a0.over, a0.extra)
+                    if (a0.default is None or a0.default == d) and a0.over == a1.over == a2.over:
+                        env[k] = ListV((a0.length[0] + n_iter[0], a0.length[1] + n_iter[1]), d, a0.over, a0.extra)
                     else:
                         env[k] = ListV(("?", 0), unify(a0.elem(), d, f"elements appended to `{k}`"), {})
-                elif g1 == g2 == (0, 0):
-                    env[k] = a1
+                elif g1 == g2 == (0, 0) and a1.extra == a2.extra == a0.extra:
+                    if a1.default != a2.default or set(a1.over) != set(a2.over):
+                        env[k] = ListV(("?", 0), a2.elem(), {})
+                        continue
+                    over = {}
+                    for key in a1.over:
+                        d0 = a0.over[key] if key in a0.over else (a0.default if a0.default is not None else a0.elem())
+                        if isinstance(key, int) and key in a0.over and a1.over[key] == a0.over[key] == a2.over[key]:
+                            over[key] = a1.over[key]
+                        else:
+                            over[key] = accel(k, d0, a1.over[key], a2.over[key], f"`{k}[{str(key).lstrip('@')}]`")
+                    env[k] = ListV(a1.length, a1.default, over, a1.extra)
                 else:
                     env[k] = ListV(("?", 0), a2.elem(), {})
             elif a1 is not None:
